@@ -17,7 +17,10 @@ Definition mkslice (lo hi st : option expr) : expr :=
   Node (LSlice (is_some lo) (is_some hi) (is_some st)) (opt_list lo ++ opt_list hi ++ opt_list st).
 
 (* tokens after which the upper bound of a slice is absent *)
-Definition slice_stop (t : tok) : bool := match t with TColon | TComma | TRB => true | _ => false end.
+Definition slice_stop (t : tok) : bool := match t with TColon | TComma | TTrail | TRB => true | _ => false end.
+
+(* a parenthesised tuple standing alone between the brackets of a subscript is the index tuple itself (x[(a, b)] is x[a, b]) *)
+Definition idx_norm (a : expr) : expr := match a with Node (LOp KTuple) cs => Node (LOp KIdxTuple) cs | _ => a end.
 
 (* the rest of a slice: after the upper bound (optional `:step`), and after the first colon (optional upper bound);
    pe is the expression parser with the fuel of the caller *)
@@ -275,7 +278,8 @@ with parse_sitems (f : nat) (ts : list tok) {struct f} : option (list expr * lis
 with parse_index (f : nat) (ts : list tok) {struct f} : option (expr * list tok) :=
   match f with O => None | S f' =>
     match parse_sitem f' ts with
-    | Some (a, TRB :: r) => Some (a, r)
+    | Some (a, TRB :: r) => Some (idx_norm a, r)
+    | Some (a, TTrail :: TRB :: r) => Some (Node (LOp KIdxTuple) [a], r)
     | Some (a, TComma :: r1) =>
         match parse_sitems f' r1 with
         | Some (more, TRB :: r) => Some (Node (LOp KIdxTuple) (a :: more), r)
